@@ -316,10 +316,16 @@ def eval_product(specs):
     viol = []
     try:
         sw = [build(s) for s in specs]
+        before = [[canon(c) for c in s.list()] for s in sw]
         p = sw[0].product(*sw[1:])
         got = p.list()
+        after = [[canon(c) for c in s.list()] for s in sw]
     except Exception as e:  # noqa: BLE001
         return [(_exc(e, step="product", **sig), f"{txt} raised {e!r}")], True, "product:exception", strata
+    for k, (b, a) in enumerate(zip(before, after)):
+        if a != b:  # an operand must still enumerate its own combinations after it was used in a product
+            viol.append(({"kind": "operand-changed", "op": "product", "operand": "left" if k == 0 else "other"},
+                         f"after {txt}, operand {k} lists {len(a)} combinations {a[:4]} instead of its own {len(b)}: {b[:4]}"))
     diff = compare(got, exp, ordered)
     if diff:
         viol.append(({"kind": "value-mismatch", "diff": diff, **sig},
@@ -368,6 +374,8 @@ def eval_add(specs):
             own = [c for s in sw for c in s.list()]
             m = mk(sw)
             got = m.list()
+            if [canon(c) for s in sw for c in s.list()] != [canon(c) for c in own]:
+                viol.append(({"kind": "operand-changed", "op": "add", "how": how}, f"{how}: an operand of {txt} lists different combinations afterwards"))
             it = [c for c in m]  # noqa: C416
             n = len(m)
         except Exception as e:  # noqa: BLE001
